@@ -26,6 +26,26 @@ NA = {
 PENDING = {}
 
 CHECKS = [
+    dict(pid="C02", level="model_checking",
+         text="STEP level, from MIR with the file system as an effect recorder: for ONE bidir::apply call with ANY action, any fingerprints on either side (maps are uninterpreted functions of map and key) and every file-system operation allowed to fail, the solver shows: a file is removed only by a Delete action and only that side's path; Noop/ConvergeIdentical request nothing; copies go to a `.copia-tmp` sibling and only a rename puts bytes at a path; a live path is overwritten only as the action says and only with the other side's live content; on a both-changed conflict the losing version is delivered to the same conflict name under BOTH roots before its own path is overwritten; delete-vs-modify never removes and restores the survivor; propagation delivers or reports an error.",
+         ref="DESIGN.md §13 bisync",
+         note="'Never loses a version across ANY history' is ARGUED from C18 (the decision table, proof level) + these step obligations + the run-level obligations of C06/C07; it is not decided as one query. NOT explored: crash points, the directory scan, symlinks. Found and fixed through C06's run-level obligation: stale archive entries made a later run delete a re-created file (4c7b136). Validation: the real run_bisync on 14 edit/run histories judged against the C02/C06/C07 texts.",
+         technique="SMT over MIR (effect trace of one apply step; uninterpreted path constructors and abstract maps); native replay of histories"),
+    dict(pid="C06", level="model_checking",
+         text="From MIR: (1) one apply step keeps, on a both-changed conflict, the version with the greater BLAKE3 at the path (ties: A) and names the other `<path>.conflict-<host>-<short hex of the LOSING digest>` under each root, and updates the common map with exactly the version now at each path (insert / remove per action). (2) run_bisync over an ordered universe of 2 (quick) / 3 (thorough) paths — both scans and the loaded archive symbolic, `reconcile` from MIR, `apply` replaced by the contract decided in (1), every outcome arbitrary: the archive is saved at most once, to the pair's path, with the epoch advanced by one, only after every planned action was applied successfully, never in a dry run, and the saved common state has exactly the paths and digests both sides hold after the run.",
+         ref="DESIGN.md §13 bisync",
+         note="Idempotence of an immediate second run and independence from mtimes / argument order are ARGUED from 'recorded state = tree' (decided here) and C18's table, symmetry and equality-only obligations; not decided as one query. Conflict-copy entries (keys outside the path universe) are checked at step level only. Found and fixed: paths gone from both sides stayed in the archive (4c7b136).",
+         technique="SMT over MIR (compositional: step contract decided, then used inside the orchestration; BTreeMap model over an ordered path universe); native replay of the model as an edit/run history"),
+    dict(pid="C07", level="model_checking",
+         text="From MIR: Archive::load returns an archive only if the file was read, parsed, has the current format version and carries the expected pair id (std::fs::read = any bytes or an error; serde_json = ANY Archive value or an error), and reads only the archive file; run_bisync trusts the base exactly when load returned an archive, passes its entries (else an empty map) to the real reconcile, and without a trusted archive applies no Delete action; the apply step removes files only for Delete actions (C02's obligations re-asked).",
+         ref="DESIGN.md §13 bisync",
+         note="serde_json itself (which byte strings fail to parse) is not modelled: a missing/empty/truncated/unparsable file is by contract a read or parse failure. 'No delete without a base' for the per-path decision is C18's proof-level obligation. Universe of 2/3 paths for the orchestration.",
+         technique="SMT over MIR (gate function over all parsed values; orchestration with the real reconcile); native replay with damaged / foreign / missing archives"),
+    dict(pid="C08", level="model_checking",
+         text="ORDER of requests the crash argument rests on, from MIR with the file system as an effect recorder: a bisync delivery copies to a `.copia-tmp` sibling, flushes it, and only then renames it into place (never writes a live path directly); Archive::save writes `<archive>.tmp`, syncs it, keeps the old archive as `.bak`, renames, then syncs the directory, and never creates or writes the archive path directly; run_bisync saves the archive only after every planned action was applied successfully and never in a dry run.",
+         ref="DESIGN.md §13 bisync",
+         note="Crash points themselves are NOT explored: atomicity of rename(2) and durability after fsync are the kernel's; recovery by re-running is argued from C02/C06. Counterexamples to ORDER goals are confirmed on the real code with strace. Found and fixed: deliveries were renamed into place without an fsync of the staged copy (20e40bb).",
+         technique="SMT over MIR (ordered effect trace with guards); strace system-call order of the real code as replay"),
     dict(pid="C03", level="model_checking",
          text="SEQUENTIAL compare-and-swap step, from MIR with the file system as an effect recorder: for ONE Put or Delete from an arbitrary state (any names, any expected / current / claimed hash, every operation may fail) the solver shows that the live path is renamed over / removed only if the hash read equals the client's expected hash, that this read, the compare (the real cas_decide) and the rename/remove all lie inside ONE exclusive-lock section on <root>/.copia/commit.lock, that a stale expected hash sends the verified bytes to `<path>.conflict-<short hash>` and touches nothing else, that at most one rename/remove is requested, and that the reply reports exactly the decision taken (committed/deleted flag, current hash). Counterexamples are confirmed against the real handlers (scenario family vs a sequential reference) and, for ORDER goals, against the real system-call order observed with strace.",
          ref="DESIGN.md §12 hub",
@@ -121,7 +141,7 @@ def build():
             "add_only": True,
         },
         "engines": [
-            {"name": "mirsmt", "path": "/verif/mirsmt", "serves_properties": ["C01", "C03", "C05", "C10", "C11", "C12", "C14", "C15", "C16", "C17", "C18", "C19", "C20"],
+            {"name": "mirsmt", "path": "/verif/mirsmt", "serves_properties": ["C01", "C02", "C03", "C05", "C06", "C07", "C08", "C10", "C11", "C12", "C14", "C15", "C16", "C17", "C18", "C19", "C20"],
              "kind_free_text": "own symbolic executor over nightly rustc MIR text -> z3 terms (Int encoding with explicit wrap); z3 decides, cvc5 / z3 4.8.12 re-decide the exported SMT-LIB2"},
             {"name": "kani", "path": "/verif/kani-lib, /verif/kani-bin", "serves_properties": ["C01", "C05", "C18", "C19", "C20"],
              "kind_free_text": "Kani 0.68 / CBMC 6.11 proof harnesses in out-of-tree crates over the real code (path dependency; environment shims for blake3, rayon, rustc-hash)"},
